@@ -73,6 +73,8 @@ type run struct {
 	bytesID     map[int]string // block id -> bytes that a vote signs
 	fixedLeader int
 	lmode       string
+	silentAfter hotstuff.ID // scenario: this replica falls silent once the others reach silentView
+	silentView  int
 }
 
 func (r *run) honest() []*hx.Node {
@@ -345,6 +347,17 @@ func (r *run) maxConnectedView() int {
 	m := 0
 	for _, n := range r.honest() {
 		if n.ID != r.isoVictim {
+			m = max(m, int(n.VS.View()))
+		}
+	}
+	return m
+}
+
+// maxViewWithout: the highest view among the honest replicas other than id
+func (r *run) maxViewWithout(id hotstuff.ID) int {
+	m := 0
+	for _, n := range r.honest() {
+		if n.ID != id {
 			m = max(m, int(n.VS.View()))
 		}
 	}
@@ -685,6 +698,7 @@ func protoCmd(args []string) error {
 	syncSuffix := fs.Bool("heal", false, "end every run with a synchronous suffix (C05)")
 	suffixViews := fs.Int("suffix", 12, "views of the synchronous suffix")
 	noByz := fs.Bool("nobyz", false, "crash faults only (C05)")
+	only := fs.String("only", "", "play only this scenario of the library (late-leader, laggard)")
 	faultFree := fs.Int("faultfree", 0, "every k-th run is fault-free and synchronous from the start (C05)")
 	_ = fs.Parse(args)
 	o, err := newNDJSON(*out)
@@ -701,7 +715,10 @@ func protoCmd(args []string) error {
 		f := hotstuff.NumFaulty(n)
 		nb := rng.Intn(f + 1)
 		ff := *faultFree > 0 && ri%*faultFree == 0
-		if ff || ri%3 == 2 {
+		if *only != "" {
+			ff = false
+		}
+		if ff || ri%3 == 2 || *only != "" {
 			nb = 0 // fault-free runs and the scenario library (which cuts a replica off itself) have no faulty replica
 		}
 		byz := map[hotstuff.ID]bool{}
@@ -784,7 +801,10 @@ func protoCmd(args []string) error {
 		isoPlan := make([]int, 80)
 		scenario := ""
 		defer func(sc *string) { _ = *sc }(&scenario)
-		if ri%6 == 5 && !ff && lmode != "fixed" {
+		if *only == "late-leader" && lmode == "fixed" {
+			lmode, r.lmode = "script", "script"
+		}
+		if (ri%6 == 5 || *only == "late-leader") && !ff && lmode != "fixed" {
 			// scenario library: "late leader" -- one replica leads a stretch of views and is cut off in every other one of
 			// them: the others enter the next view on a timeout certificate and only then see its proposal, which carries a
 			// certificate older than their view
@@ -793,6 +813,10 @@ func protoCmd(args []string) error {
 			hon := r.honest()
 			l := int(hon[rng.Intn(len(hon))].ID)
 			a := 2 + rng.Intn(4)
+			// ... and when the stretch is over it falls silent for good (the synchronous quorum of the suffix excludes it)
+			if len(hon)-1 >= r.q && rng.Intn(4) > 0 {
+				r.silentAfter, r.silentView = hotstuff.ID(l), a+6+rng.Intn(2)
+			}
 			for v := a; v < a+7 && v < len(script); v++ {
 				script[v-1] = l
 				if (v-a)%2 == 0 {
@@ -805,7 +829,7 @@ func protoCmd(args []string) error {
 				nl = append(nl, int(r.lr.GetLeader(hotstuff.View(v))))
 			}
 			o.emit(obj{"op": "relead", "leaders": nl})
-		} else if ri%3 == 2 && !ff {
+		} else if (ri%3 == 2 || *only == "laggard") && !ff {
 			// scenario library: "laggard" -- a calm run in which the leader-to-be of view w+1 is cut off from view w on for a few
 			// views and then reconnected, seeing the newest traffic first
 			scenario = "laggard"
@@ -832,6 +856,9 @@ func protoCmd(args []string) error {
 			}
 		}
 		for s := 0; s < *maxSteps && !ff; s++ {
+			if r.silentAfter != 0 && r.maxViewWithout(r.silentAfter) >= r.silentView {
+				break
+			}
 			r.topUp()
 			// partitions, per view as in Twins: while the most advanced honest replica is in view v, the replica isoPlan[v]
 			// (if any) is cut off from everybody: its traffic is held back (delayed, not lost) until the plan lets it back in
@@ -899,6 +926,15 @@ func protoCmd(args []string) error {
 func (r *run) heal(views int, faultFree bool) {
 	hon := r.honest()
 	// choose M: q honest replicas (all replicas in a fault-free run)
+	if r.silentAfter != 0 {
+		var rest []*hx.Node
+		for _, x := range hon {
+			if x.ID != r.silentAfter {
+				rest = append(rest, x)
+			}
+		}
+		hon = rest
+	}
 	perm := r.rng.Perm(len(hon))
 	inM := map[hotstuff.ID]bool{}
 	k := r.q
